@@ -66,6 +66,8 @@ class World:
         self.changed = set()     # handles the current step is documented to change
         self.created = set()
         self.foreign = []
+        self.lapack = None          # SimLAPACK seam (installed by profiles that use it)
+        self.fault_counts = {}
         from simlab.core import Digest
         self.xdigest = Digest()   # digest of results that must be bit-identical under every PYTHONHASHSEED class
 
